@@ -13,7 +13,7 @@ BUDGET_S = {'quick': 80, 'thorough': 180}
 PER_BATCH = {'quick': 300, 'thorough': 5000}
 FLOORS = {
     'quick': {'distinct_nontrivial': 1500, 'fork-trees': 1200, 'handles-finished': 8000, 'results-rechecked-after-later-operations': 40000,
-              'accepts-observations': 8000, 'accepts==reference': 3000, 'resume-cases': 1500, 'resume-on-forks': 3000, 'on_error-cases': 800,
+              'accepts-observations': 8000, 'accepts==reference': 3000, 'resume-cases': 1500, 'resume-on-forks': 3000, 'feature:terminal-names-that-are-not-upper-case': 40, 'on_error-cases': 800,
               'feature:fork:copy': 2000, 'feature:fork:as_immutable': 2000, 'feature:fork:immutable-feed': 4000, 'feature:fork:as_mutable': 800,
               'feature:fork:copy.copy': 500, 'feature:diverging-forks-share-reduced-subtree': 1500, 'feature:embedded-transformer': 300,
               'feature:inlined-left-recursion': 300, 'feature:placeholders': 300, 'feature:error-in-branch': 500},
@@ -84,6 +84,7 @@ def run_tree(ctx, l, lb, ref, names, texts, rng, feats, case0, expcache):
     from lark import Token
     ops = []
     hid = [0]
+    termnames = {t.name for t in l.terminals} | {END}      # not guessed from the spelling: "__" and m__NAME are terminals too
     base_text = rng.choice(texts)
     plan = lex_plan(lb, base_text)
     if plan is None:
@@ -145,7 +146,7 @@ def run_tree(ctx, l, lb, ref, names, texts, rng, feats, case0, expcache):
         ip = h.ip
         try:
             acc = set(ip.accepts())
-            row = {k for k in ip.choices() if k.isupper() or k == END}
+            row = {k for k in ip.choices() if k in termnames}
         except Exception as e:
             ctx.violation('accepts()-raises', case, {'handle': h.id, 'exc': repr(e)[:200]})
             return False
@@ -394,6 +395,16 @@ def sentences(rng, G, n):
 
 def run_grammar(ctx, G, rng, n_trees, n_resume, lexer, use_transformer, only=None):
     G = ws_variant(gen.prune(G))
+    if rng.random() < 0.3 and 'odd-names' not in G:
+        # anonymous literals that lark names after themselves: terminal names that are not upper-case ("__", "_1")
+        import copy as _copy
+        G = _copy.deepcopy(G)
+        G['odd-names'] = True
+        for r in G['rules']:
+            if r['name'] == 'start':
+                r['alts'] = r['alts'] + [gen.alt([gen.LIT('__'), gen.LIT('_1'), ['r', 'start']]), gen.alt([gen.LIT('__')])]
+        G['alphabet'] = list(G['alphabet']) + ['_', '1']
+        ctx.count('feature:terminal-names-that-are-not-upper-case')
     text = print_grammar(G)
     opts = {'parser': 'lalr', 'lexer': lexer, 'propagate_positions': True}
     kw = dict(opts)
